@@ -17,6 +17,9 @@ use std::time::Instant;
 
 pub const THREADS: usize = 16;
 
+/// VERIF_SEED of this run, for enumerated sub-checks that derive pseudo-random data
+pub static GLOBAL_SEED: std::sync::atomic::AtomicU64 = std::sync::atomic::AtomicU64::new(0);
+
 #[derive(Debug, Clone, Copy, PartialEq, Eq)]
 pub enum Tier {
     Quick,
@@ -65,6 +68,10 @@ impl Fail {
 }
 
 pub type Check = Result<(), Fail>;
+
+/// key of a failure that is not a verdict (watchdog without a deadlock witness, missing tool …):
+/// the run exits 2 instead of reporting a violation
+pub const INCONCLUSIVE: &str = "INCONCLUSIVE";
 
 #[macro_export]
 macro_rules! ensure {
@@ -115,6 +122,7 @@ pub struct Stats {
     pub first_samples: Vec<Value>,
     pub nontrivial_samples: Vec<Value>,
     pub known_hits: BTreeMap<String, u64>,
+    pub inconclusive: Vec<String>,
 }
 
 impl Stats {
@@ -143,6 +151,11 @@ impl Stats {
         }
         for (k, v) in o.known_hits {
             *self.known_hits.entry(k).or_default() += v;
+        }
+        for m in o.inconclusive {
+            if self.inconclusive.len() < 20 {
+                self.inconclusive.push(m);
+            }
         }
     }
 
@@ -375,6 +388,12 @@ where
                                 Ok(())
                             }
                             Err(f) => {
+                                if f.key == INCONCLUSIVE {
+                                    if !shrinking {
+                                        stats.borrow_mut().inconclusive.push(f.msg.clone());
+                                    }
+                                    return Ok(());
+                                }
                                 if let Some(sig) = known_match(ctx, prop, self.name, &f.key) {
                                     if !shrinking {
                                         *stats.borrow_mut().known_hits.entry(sig).or_default() += 1;
@@ -481,6 +500,10 @@ where
                         match guarded_check(|| (self.check)(case, &mut probe)) {
                             Ok(()) => stats.record(case, digest_of(case), probe),
                             Err(f) => {
+                                if f.key == INCONCLUSIVE {
+                                    stats.inconclusive.push(f.msg.clone());
+                                    continue;
+                                }
                                 if let Some(sig) = known_match(ctx, prop, self.name, &f.key) {
                                     *stats.known_hits.entry(sig).or_default() += 1;
                                     continue;
@@ -535,6 +558,7 @@ pub struct Property {
 pub struct RunOutcome {
     pub violations: Vec<(Failure, PathBuf)>,
     pub known_lines: Vec<String>,
+    pub inconclusive: Vec<String>,
 }
 
 fn load_known(root: &PathBuf) -> Vec<(String, String, String)> {
@@ -568,6 +592,7 @@ fn load_known(root: &PathBuf) -> Vec<(String, String, String)> {
 }
 
 pub fn make_ctx(tier: Tier, seed: u64) -> Ctx {
+    GLOBAL_SEED.store(seed, Ordering::Relaxed);
     let root = PathBuf::from(std::env::var("VERIF_DIR").unwrap_or_else(|_| "/verif".to_string()));
     let known = load_known(&root);
     Ctx {
@@ -609,7 +634,11 @@ pub fn run_property(ctx: &Ctx, prop: &Property, only_sub: Option<&str>) -> RunOu
 
     let mut violations = Vec::new();
     let mut known_lines = Vec::new();
+    let mut inconclusive = Vec::new();
     for r in &results {
+        for m in &r.stats.inconclusive {
+            inconclusive.push(format!("{}/{}: {m}", prop.id, r.name));
+        }
         for (sig, n) in &r.stats.known_hits {
             let text = ctx
                 .known
@@ -671,6 +700,7 @@ pub fn run_property(ctx: &Ctx, prop: &Property, only_sub: Option<&str>) -> RunOu
                 "metrics_max": r.stats.metrics_max,
                 "excluded_known": r.stats.known_hits,
                 "generator_health": r.health,
+                "inconclusive": r.stats.inconclusive,
                 "notes": r.notes,
                 "failed": r.failure.as_ref().map(|f| f.msg.clone()),
             }),
@@ -705,6 +735,7 @@ pub fn run_property(ctx: &Ctx, prop: &Property, only_sub: Option<&str>) -> RunOu
     RunOutcome {
         violations,
         known_lines,
+        inconclusive,
     }
 }
 
